@@ -10,24 +10,32 @@ namespace Pj
 theorem C07_forward (env : Env) (f0 : Uid → Fields) (res0 : List (Option Nat × Cal)) (o : Output)
     (hf : env.flagsOK) (hcons : consistentFixed env f0 = true) (h : forwardCalc env f0 res0 = .ok o) :
     c07StartLeEnd env o = true ∧ c07Rollup env o = true := by
-  sorry
+  have := fwdRun_c07 env f0 res0 o (consistentFixed env f0 = true) hf id (forwardCalc_run env f0 res0 o h)
+  exact ⟨this.2 hcons, this.1⟩
 
 theorem C07_rollup_forward (env : Env) (f0 : Uid → Fields) (res0 : List (Option Nat × Cal)) (o : Output)
-    (hf : env.flagsOK) (h : forwardCalc env f0 res0 = .ok o) : c07Rollup env o = true := by
-  sorry
+    (hf : env.flagsOK) (h : forwardCalc env f0 res0 = .ok o) : c07Rollup env o = true :=
+  (fwdRun_c07 env f0 res0 o False hf False.elim (forwardCalc_run env f0 res0 o h)).1
 
 theorem C07_backward (env : Env) (f0 : Uid → Fields) (res0 : List (Option Nat × Cal)) (o : Output)
     (hf : env.flagsOK) (h : backwardCalc env f0 res0 = .ok o) :
-    c07StartLeEnd env o = true ∧ c07Rollup env o = true := by
-  sorry
+    c07StartLeEnd env o = true ∧ c07Rollup env o = true :=
+  bwdRun_c07 env f0 res0 o hf (backwardCalc_run env f0 res0 o h)
 
 /-- consequently `WBS.start` / `WBS.end` (earliest root start / latest root end, wbs.py:41-55) are the earliest
-    start and the latest end over all tasks -/
-theorem C07_wbs_start_end (env : Env) (o : Output) (hr : c07Rollup env o = true)
-    (hall : ∀ t ∈ memberList env, (o.f t).start.isSome ∧ (o.f t).end_.isSome)
+    start and the latest end over all tasks of the result (milestones are leaves) -/
+theorem C07_wbs_start_end_forward (env : Env) (f0 : Uid → Fields) (res0 : List (Option Nat × Cal)) (o : Output)
+    (hf : env.flagsOK) (h : forwardCalc env f0 res0 = .ok o)
     (hms : ∀ t ∈ memberList env, (env.info t).milestone = true → isLeaf env t = true) :
     minOpt (env.roots.filterMap (fun r => (o.f r).start)) = minOpt ((memberList env).filterMap (fun t => (o.f t).start)) ∧
-    maxOpt (env.roots.filterMap (fun r => (o.f r).end_)) = maxOpt ((memberList env).filterMap (fun t => (o.f t).end_)) := by
-  sorry
+    maxOpt (env.roots.filterMap (fun r => (o.f r).end_)) = maxOpt ((memberList env).filterMap (fun t => (o.f t).end_)) :=
+  forwardCalc_wbs_start_end env f0 res0 o hf h hms
+
+theorem C07_wbs_start_end_backward (env : Env) (f0 : Uid → Fields) (res0 : List (Option Nat × Cal)) (o : Output)
+    (hf : env.flagsOK) (h : backwardCalc env f0 res0 = .ok o)
+    (hms : ∀ t ∈ memberList env, (env.info t).milestone = true → isLeaf env t = true) :
+    minOpt (env.roots.filterMap (fun r => (o.f r).start)) = minOpt ((memberList env).filterMap (fun t => (o.f t).start)) ∧
+    maxOpt (env.roots.filterMap (fun r => (o.f r).end_)) = maxOpt ((memberList env).filterMap (fun t => (o.f t).end_)) :=
+  backwardCalc_wbs_start_end env f0 res0 o hf h hms
 
 end Pj
